@@ -918,7 +918,14 @@ func (r *rewriter) privateMap(m ast.Expr) bool {
 		return false
 	}
 	// a local variable can still be another name for a shared map: it is only
-	// private if everything ever assigned to it is a fresh map
+	// private if everything ever assigned to it is a fresh map - and if no
+	// function literal inside this function uses it (a goroutine started here
+	// may). Values of basic types cannot be another name for anything.
+	aliasable := true
+	switch v.Type().Underlying().(type) {
+	case *types.Basic, *types.Struct, *types.Array:
+		aliasable = false
+	}
 	fresh := true
 	isFresh := func(e ast.Expr) bool {
 		switch x := e.(type) {
@@ -929,11 +936,22 @@ func (r *rewriter) privateMap(m ast.Expr) bool {
 				if b, isB := r.info.Uses[fid].(*types.Builtin); isB && b.Name() == "make" {
 					return true
 				}
+				// v = append(v, ...) keeps v what it was
+				if b, isB := r.info.Uses[fid].(*types.Builtin); isB && b.Name() == "append" && len(x.Args) > 0 {
+					if aid, ok := x.Args[0].(*ast.Ident); ok && r.info.Uses[aid] == v {
+						return true
+					}
+				}
 			}
 		case *ast.Ident:
 			return x.Name == "nil"
+		case *ast.SliceExpr:
+			// v = v[:n] keeps v what it was
+			if aid, ok := x.X.(*ast.Ident); ok && r.info.Uses[aid] == v {
+				return true
+			}
 		}
-		return false
+		return !aliasable
 	}
 	ast.Inspect(body, func(n ast.Node) bool {
 		switch x := n.(type) {
@@ -967,6 +985,13 @@ func (r *rewriter) privateMap(m ast.Expr) bool {
 			if lid, ok := x.X.(*ast.Ident); ok && x.Op == token.AND && r.info.Uses[lid] == v {
 				fresh = false
 			}
+		case *ast.FuncLit:
+			ast.Inspect(x.Body, func(m ast.Node) bool {
+				if id, ok := m.(*ast.Ident); ok && r.info.Uses[id] == v {
+					fresh = false
+				}
+				return fresh
+			})
 		}
 		return fresh
 	})
